@@ -251,11 +251,23 @@ the generated texts). -/
 def lowerAscii (c : Char) : Char :=
   if 'A' ≤ c ∧ c ≤ 'Z' then Char.ofNat (c.toNat + 32) else c
 
+/-- The per-character simple case fold: how `re.IGNORECASE` compares a (casefolded) key character
+with a text character (`a == lw b`), and how `str.casefold()` folds a matched name (`map lw`).
+The default instance is ASCII lower-casing; the driver installs the table the harness extracted
+from Python (`str.casefold`, checked against `re` for the characters of each request). -/
+class CharFold where
+  lw : Char → Char
+
+instance (priority := low) CharFold.ascii : CharFold := ⟨lowerAscii⟩
+
+section Subst
+variable [CharFold]
+
 /-- Does the (casefolded) key match case-insensitively at the start of `rest`? -/
 def matchesCI : List Char → List Char → Bool
   | [], _ => true
   | _ :: _, [] => false
-  | a :: k, b :: rest => a == lowerAscii b && matchesCI k rest
+  | a :: k, b :: rest => a == CharFold.lw b && matchesCI k rest
 
 /-- Stable insertion, longest first: `k` goes in front of the first element that is not longer. -/
 def insKey (k : List Char) : List (List Char) → List (List Char)
@@ -280,7 +292,7 @@ def firstMatch : List (List Char) → List Char → Option (List Char)
   | [], _ => none
   | k :: ks, rest => if matchesCI k rest then some k else firstMatch ks rest
 
-def isIdStart (c : Char) : Bool := let l := lowerAscii c; ('a' ≤ l && l ≤ 'z') || l == '_'
+def isIdStart (c : Char) : Bool := let l := CharFold.lw c; ('a' ≤ l && l ≤ 'z') || l == '_'
 def isIdCont (c : Char) : Bool := isIdStart c || ('0' ≤ c && c ≤ '9')
 
 /-- Length of the longest `[a-z_][a-z0-9_]*` (ignoring case) at the start of `rest`; 0 = no match. -/
@@ -299,7 +311,7 @@ def matchVar (t : FixTable) (dflt : List Char) (rest : List Char) : Option (Nat 
   | none =>
     match identLen rest with
     | 0 => none
-    | n + 1 => some (n + 1, (lookupFix t ((rest.take (n + 1)).map lowerAscii)).getD dflt)
+    | n + 1 => some (n + 1, (lookupFix t ((rest.take (n + 1)).map CharFold.lw)).getD dflt)
 
 /-- `re.sub` scan: `skip` characters of an already replaced variable name remain to be dropped. -/
 def substGo (t : FixTable) (dflt : List Char) : Nat → List Char → List Char
@@ -316,6 +328,8 @@ def substGo (t : FixTable) (dflt : List Char) : Nat → List Char → List Char
 pattern and put back by the replacer, which is the same as copying it). -/
 def substitute (t : FixTable) (dflt : List Char) (text : List Char) : List Char :=
   substGo t dflt 0 text
+
+end Subst
 
 /-! ## collapsing one instance -/
 
@@ -361,7 +375,7 @@ structure Template (α : Type) where
   ents : List (Ent α)
 
 section Collapse
-variable {α : Type} [Add α] [Mul α] [Sub α] [Div α]
+variable {α : Type} [Add α] [Mul α] [Sub α] [Div α] [CharFold]
 
 /-- `Instance.fixup_key` after `inst.fixup.substitute(value, '')`. -/
 def fixupKey (I : Inst α) : KVal α → KVal α
